@@ -221,11 +221,29 @@ def a05_action_algebra(ctx):
             else:
                 r.sample({'op': '%s - %s' % (va, vb), 'result variants': sorted(got), 'allowed': sorted(want)})
     for va, want in (('Buy', {'Sell'}), ('Sell', {'Buy'}), ('None', {'None'})):
-        ex, outs = run(neg_id, lambda ex, st, b: [pin_action(ex, st, va)])
+        held = {}
+
+        def mk_neg(ex, st, b, va=va, held=held):
+            v = pin_action(ex, st, va)
+            if va != 'None':
+                pc = st.cells[v[3][va]['0']]
+                held['vid'] = pc[2] if pc[0] == 'int' else None
+            return [v]
+        ex, outs = run(neg_id, mk_neg)
         got = variants_of(ex, outs or [])
         r.inst('sign|Neg|' + va)
         if got != want:
             r.violate('sign|Neg|%s|%s' % (va, '+'.join(sorted(got))), '-%s gives %s (expected %s)' % (va, sorted(got), sorted(want)), f.bodies[neg_id]['file'], f.bodies[neg_id]['line'])
+        elif va != 'None' and held.get('vid') is not None:
+            # involution: the strength is carried over unchanged (the same value, not merely the same range)
+            r.inst('sign|Neg|%s|strength' % va)
+            for s_, v_ in outs or []:
+                ov = next(iter(want))
+                pc = s_.cells[v_[3][ov]['0']] if v_[0] == 'adt' and ov in v_[3] and '0' in v_[3][ov] else None
+                if pc is None or pc[0] != 'int' or not (pc[2] == held['vid'] or ex.eval_cmp(s_, 'Eq', pc[2], held['vid']) is True):
+                    r.violate('sign|Neg|%s|strength-changed' % va, '-%s(v) does not carry the strength v over unchanged: negation is not an involution' % va,
+                              f.bodies[neg_id]['file'], f.bodies[neg_id]['line'])
+                    break
     # conversions back: None-ness and sign follow the variant
     back = {}
     for d, bid in fns:
@@ -249,6 +267,16 @@ def a05_action_algebra(ctx):
                             lo, hi = ex.rng(s, pay[2])
                             if (va == 'Buy' and lo < 0) or (va == 'Sell' and hi > 0):
                                 r.violate(key + '|sign', 'the sign of Action::%s converted into %s can be %s' % (va, target, (lo, hi)), f.bodies[bid]['file'], f.bodies[bid]['line'])
+                        elif pay[0] == 'float':
+                            # the ratio: a number of [-1, 1] with the sign of the variant, never NaN
+                            pv = ex.fview(s, pay)
+                            r.inst(key + '|ratio-range')
+                            eps = 1e-9
+                            if pv[3] or pv[1] < -1 - eps or pv[2] > 1 + eps or (va == 'Buy' and pv[1] < -eps) or (va == 'Sell' and pv[2] > eps):
+                                r.violate(key + '|ratio-range', 'the ratio of Action::%s can be %s%s: outside [-1, 1] / wrong sign' % (
+                                    va, (pv[1], pv[2]), ' or NaN' if pv[3] else ''), f.bodies[bid]['file'], f.bodies[bid]['line'])
+                            else:
+                                r.sample({'conversion': 'Action::%s -> ratio' % va, 'range': [round(pv[1], 6), round(pv[2], 6)]})
                 elif v[0] == 'int':
                     lo, hi = ex.rng(s, v[2])
                     if (va == 'Buy' and lo < 0) or (va == 'Sell' and hi > 0) or (va == 'None' and (lo, hi) != (0, 0)):
